@@ -350,4 +350,39 @@ theorem diff_tieShape {l r : AMap Node} (hl : Good (.cont l)) (hr : Good (.cont 
   rw [diff, sortMods_filter]
   exact emit_tieShape hl hr q
 
+/-! ## index statements from the shape -/
+
+theorem pair_of_append_cons {α : Type} : ∀ {A C : List α} {a x y z : α}, a ∈ A → A ++ x :: C = [y, z] →
+    a = y ∧ x = z
+  | [], _, _, _, _, _, ha, _ => by cases ha
+  | [a'], C, a, x, y, z, ha, h => by
+    simp only [List.cons_append, List.nil_append, List.cons.injEq] at h
+    rw [List.mem_singleton] at ha
+    exact ⟨ha.trans h.1, h.2.1⟩
+  | _ :: _ :: A, _, _, _, _, _, _, h => by
+    simp at h
+
+theorem filter_split_at {d : List Mod} (pr : Mod → Bool) {j : Nat} (hj : j < d.length) (hp : pr d[j] = true) :
+    d.filter pr = (d.take j).filter pr ++ d[j] :: (d.drop (j + 1)).filter pr := by
+  calc d.filter pr = (d.take j ++ d.drop j).filter pr := by rw [List.take_append_drop]
+    _ = _ := by rw [List.drop_eq_getElem_cons hj, List.filter_append, List.filter_cons, if_pos hp]
+
+/-- two modifications of one path: the earlier is the Delete, the later the Add -/
+theorem TieShape.getElem_pair {d : List Mod} (h : TieShape d) {i j : Nat} (hij : i < j) (hj : j < d.length)
+    (hp : d[i].path = d[j].path) :
+    d[i] = Mod.mkDel d[j].path ∧ ∃ v, d[j] = Mod.mkAdd d[j].path v := by
+  have hs := filter_split_at (d := d) (fun m => m.path = d[j].path) hj (by simp)
+  have hi : d[i] ∈ (d.take j).filter (fun m => m.path = d[j].path) := by
+    refine List.mem_filter.mpr ⟨List.mem_take_iff_getElem.mpr ⟨i, by omega, rfl⟩, by simp [hp]⟩
+  have hq := h d[j].path
+  rw [hs] at hq
+  rcases hq with h0 | ⟨m, h1⟩ | ⟨v, h2⟩
+  · simp at h0
+  · exfalso
+    cases hA : (d.take j).filter (fun m => m.path = d[j].path) with
+    | nil => rw [hA] at hi; cases hi
+    | cons a A => rw [hA] at h1; simp at h1
+  · have := pair_of_append_cons hi h2
+    exact ⟨this.1, v, this.2⟩
+
 end Ytk
